@@ -15,6 +15,7 @@ import (
 	"sort"
 	"strings"
 	"sync"
+	"syscall"
 	"time"
 
 	"github.com/containerd/nri/pkg/adaptation"
@@ -95,6 +96,19 @@ func runLayout(l layout) (viol []string, sig string) {
 	}
 	defer os.RemoveAll(dir)
 	pdir, cdir, rdir := filepath.Join(dir, "plugins"), filepath.Join(dir, "conf.d"), filepath.Join(dir, "reports")
+	// whatever happens (also when a step gets stuck and the layout is abandoned): no probe process
+	// launched for this layout stays behind
+	defer func() {
+		files, _ := filepath.Glob(filepath.Join(rdir, "*.json"))
+		for _, f := range files {
+			var rp probe.Report
+			if b, err := os.ReadFile(f); err == nil && json.Unmarshal(b, &rp) == nil && rp.Pid > 1 {
+				if exe, err := os.Readlink(fmt.Sprintf("/proc/%d/exe", rp.Pid)); err == nil && strings.HasPrefix(exe, pdir) {
+					syscall.Kill(rp.Pid, syscall.SIGKILL)
+				}
+			}
+		}
+	}()
 	os.MkdirAll(pdir, 0o755)
 	os.MkdirAll(cdir, 0o755)
 	os.MkdirAll(rdir, 0o755)
@@ -156,6 +170,22 @@ func runLayout(l layout) (viol []string, sig string) {
 	// a second event, so that dropped plugins are pruned and killed
 	r.StartContainer(context.Background(), evt)
 	time.Sleep(30 * time.Millisecond)
+	// plugins that drop their connection while the runtime is idle (and stay alive): wait until the
+	// runtime has noticed; no further event follows, Stop comes next
+	for _, e := range l.Entries {
+		if e.Kind == "exec" && modeOf(e.File) == "closeidle" {
+			name := e.File
+			waitUntil(3*time.Second, func() bool {
+				open, _ := adaptation.VerifPluginStates(r)
+				for _, n := range open {
+					if n == name {
+						return false
+					}
+				}
+				return true
+			})
+		}
+	}
 
 	// collect reports
 	reports := map[string][]probe.Report{}
@@ -229,8 +259,11 @@ func runLayout(l layout) (viol []string, sig string) {
 				add("healthy-plugin-affected", "%s (healthy) received %d of 2 events; plugins in the directory: %v", e.File, rp.Events, names(l.Entries))
 			}
 		}
-		if mode == "syncfail" && rp.Events != 0 {
+		if (mode == "syncfail" || mode == "synchang") && rp.Events != 0 {
 			add("failed-plugin-active", "%s failed its synchronization but received %d events", e.File, rp.Events)
+		}
+		if mode == "closeidle" && (!rp.Synced || rp.Events != 2) {
+			add("healthy-plugin-affected", "%s (healthy until it leaves) was synchronized: %v, received %d of 2 events", e.File, rp.Synced, rp.Events)
 		}
 	}
 	// invocation order of the healthy plugins: index order
@@ -281,6 +314,15 @@ func runLayout(l layout) (viol []string, sig string) {
 	return
 }
 
+func waitUntil(d time.Duration, f func() bool) bool {
+	for deadline := time.Now().Add(d); time.Now().Before(deadline); time.Sleep(2 * time.Millisecond) {
+		if f() {
+			return true
+		}
+	}
+	return f()
+}
+
 func keys(m map[string]string) []string {
 	var k []string
 	for x := range m {
@@ -329,7 +371,7 @@ func generate(thorough bool) []layout {
 		out = append(out, layout{Name: fmt.Sprintf("content-%02d", mask), Entries: es, Dropins: map[string]string{"ok-a.conf": "generic-a", "05-ok-b.conf": "specific-b"}})
 	}
 	// failure modes
-	modes := []string{"exit", "noreg", "syncfail", "dielater", "hang", "garbage"}
+	modes := []string{"exit", "noreg", "syncfail", "dielater", "hang", "garbage", "synchang", "closeidle"}
 	mk := func(idx int, mode string) entry {
 		k := "exec"
 		if mode == "garbage" {
@@ -409,6 +451,19 @@ func main() {
 		return
 	}
 	ls := generate(f.Thorough())
+	if f.Engine == "presync" {
+		// C09: the start-up synchronisation of pre-installed plugins: only the configurations in which a
+		// plugin fails or never answers its synchronisation
+		var keep []layout
+		for _, l := range ls {
+			if strings.Contains(l.Name, "syncfail") || strings.Contains(l.Name, "synchang") {
+				keep = append(keep, l)
+			}
+		}
+		ls = keep
+		res.Engine = "procs/presync"
+		res.Rule = "pre-installed plugins (real processes) of which one or two fail or never answer their start-up synchronisation, at every position among healthy plugins: every healthy plugin is synchronised (handed the runtime's state) exactly when it becomes active, failed ones never become active"
+	}
 	var mu sync.Mutex
 	var wg sync.WaitGroup
 	var suspects []layout
@@ -464,6 +519,7 @@ func main() {
 			res.Exhaustive = false
 			continue
 		}
+		sig = f.Prop + strings.TrimPrefix(sig, "C18")
 		res.Add(sig, strings.Join(v, "\n  ")+"\n  layout: "+l.Name+" "+fmt.Sprint(names(l.Entries)), l)
 	}
 	res.Distinct = res.Evaluations
